@@ -882,7 +882,7 @@ func (interp *Interpreter) cfg(root *node, sc *scope, importPath, pkgName string
 					// Do not skip assign operation if it is combined with another operator.
 				case src.rval.IsValid():
 					// Do not skip assign operation if setting from a constant value.
-				case dest.rval.IsValid():
+				case isBinVar(dest):
 					// The destination is a variable of a binary package: it lives outside the frame,
 					// the value must be stored through the assign operation.
 				case isMapEntry(dest):
@@ -1081,11 +1081,12 @@ func (interp *Interpreter) cfg(root *node, sc *scope, importPath, pkgName string
 				// by constOp and available in n.rval. Nothing else to do at execution.
 				n.gen = nop
 				n.findex = notInFrame
-			case n.anc.kind == assignStmt && n.anc.action == aAssign && n.anc.nleft == 1 && !isBlank(n.anc.child[childPos(n)-n.anc.nright]) && !isInterface(n.anc.child[childPos(n)-n.anc.nright].typ):
+			case n.anc.kind == assignStmt && n.anc.action == aAssign && n.anc.nleft == 1 && !isBlank(n.anc.child[childPos(n)-n.anc.nright]) && !isInterface(n.anc.child[childPos(n)-n.anc.nright].typ) && !isBinVar(n.anc.child[childPos(n)-n.anc.nright]):
 				// To avoid a copy in frame, if the result is to be assigned, store it directly
 				// at the frame location of destination. A blank destination has no type nor
 				// frame location yet: they are set from this node, at assign post-order.
 				// Not for an interface destination: the assign operation converts the result.
+				// Not for a variable of a binary package, which is not in the frame.
 				dest := n.anc.child[childPos(n)-n.anc.nright]
 				n.typ = dest.typ
 				n.findex = dest.findex
@@ -1842,7 +1843,12 @@ func (interp *Interpreter) cfg(root *node, sc *scope, importPath, pkgName string
 					n.kind = basicLit
 				case sym.kind == binSym:
 					n.typ = sym.typ
-					n.rval = sym.rval
+					if sym.rval.CanAddr() {
+						// A variable: its value is read at run time, it is not a constant.
+						n.val, n.findex, n.sym = sym.rval, notInFrame, nil
+					} else {
+						n.rval = sym.rval
+					}
 				case sym.kind == bltnSym:
 					if n.anc.kind != callExpr {
 						err = n.cfgErrorf("use of builtin %s not in function call", n.ident)
@@ -2092,7 +2098,13 @@ func (interp *Interpreter) cfg(root *node, sc *scope, importPath, pkgName string
 						n.typ = valueTOf(s.Type().Elem())
 					} else {
 						n.typ = valueTOf(fixPossibleConstType(s.Type()), withUntyped(isValueUntyped(s)))
-						n.rval = s
+						if s.CanAddr() {
+							// A variable: its value is read at run time, it is not a constant.
+							n.val = s
+							n.findex = notInFrame
+						} else {
+							n.rval = s
+						}
 						if pkg == "unsafe" && (name == "AlignOf" || name == "Offsetof" || name == "Sizeof") {
 							n.sym = &symbol{kind: bltnSym, node: n, rval: s}
 							n.ident = pkg + "." + name
@@ -2487,9 +2499,10 @@ func (interp *Interpreter) cfg(root *node, sc *scope, importPath, pkgName string
 			case n.rval.IsValid():
 				n.gen = nop
 				n.findex = notInFrame
-			case n.anc.kind == assignStmt && n.anc.action == aAssign && n.anc.nright == 1 && !isBlank(n.anc.child[childPos(n)-n.anc.nright]) && !isInterface(n.anc.child[childPos(n)-n.anc.nright].typ):
+			case n.anc.kind == assignStmt && n.anc.action == aAssign && n.anc.nright == 1 && !isBlank(n.anc.child[childPos(n)-n.anc.nright]) && !isInterface(n.anc.child[childPos(n)-n.anc.nright].typ) && !isBinVar(n.anc.child[childPos(n)-n.anc.nright]):
 				// Not for a blank destination, which has no type nor frame location yet, nor
-				// for an interface destination: the assign operation converts the result.
+				// for an interface destination: the assign operation converts the result, nor
+				// for a variable of a binary package, which is not in the frame.
 				dest := n.anc.child[childPos(n)-n.anc.nright]
 				n.typ = dest.typ
 				n.findex = dest.findex
@@ -2985,6 +2998,12 @@ func getDefault(n *node) int {
 // variable of pointer type holding nil is exported as `reflect.ValueOf(&v).Elem()`, which is.
 func isBinType(v reflect.Value) bool {
 	return v.IsValid() && v.Kind() == reflect.Ptr && v.IsNil() && !v.CanAddr()
+}
+
+// isBinVar returns true if node refers to a variable of a binary package, false otherwise.
+func isBinVar(n *node) bool {
+	v, ok := n.val.(reflect.Value)
+	return ok && n.findex == notInFrame && v.CanAddr()
 }
 
 // isType returns true if node refers to a type definition, false otherwise.
